@@ -712,7 +712,7 @@ def unique_caller(ctx, f):
     return sites[0]
 
 
-def contextual(ctx, f, t, depth: int = 0):
+def contextual(ctx, f, t, depth: int = 0, stop=None):
     """``t`` (a term built in ``f``) with the parameters of ``f`` replaced by the caller's argument values while
     ``f`` is a private function with a single call site (transitively, three levels): the value as the caller sees it."""
     from .callgraph import _is_bound_call, bind_args
@@ -720,6 +720,8 @@ def contextual(ctx, f, t, depth: int = 0):
 
     cur_f, cur_t = f, t
     for _ in range(3 - depth):
+        if stop is not None and cur_f is stop:
+            break
         uc = unique_caller(ctx, cur_f)
         if uc is None:
             break
